@@ -550,7 +550,13 @@ func main() {
 			run.Violation("listener-cx-total", fmt.Sprintf("%d client sockets were connected, listener_cx_total grew by %d", led.conns, lc), b, wit)
 		}
 		dc := int(lib.MetricSum(mfs, "fw_dialer_cx_total", nil) - lib.MetricSum(before, "fw_dialer_cx_total", nil))
-		acc := int(w.origin.Accepts() + w.torigin.Accepts() + w.tunAcc.Load() - accBefore)
+		accepts := func() int { return int(w.origin.Accepts() + w.torigin.Accepts() + w.tunAcc.Load() - accBefore) }
+		// the proxy's connect() returns when the kernel has queued the connection; the scripted
+		// peer counts it when its accept loop gets to it, which on a loaded machine is later
+		for t := time.Now(); quiet && accepts() < dc && time.Since(t) < 3*time.Second; {
+			time.Sleep(5 * time.Millisecond)
+		}
+		acc := accepts()
 		if quiet && dc != acc {
 			// a dial may complete after the client is gone and be closed at once: the peer still accepts it
 			if dc < acc-2 || dc > acc {
